@@ -89,6 +89,7 @@ fn key_enc_opts(s: &Ident, rc: &Ident, e: Option<&[u8; 32]>, e_pub: Option<&[u8;
 pub fn run(rep: &'static Report) {
     let seed = rep.seed;
     rep.set_rule("E-GRID: all 16 ordered (sender, recipient) pairs x plaintexts x read partitions x payload keys with a fixed ephemeral key; all files that differ only in identities are compared pairwise (cleartext skeleton and length must be equal, length == 132 + 32*records + |P|), every file is scanned for each party's key in raw/hex/base64 (any phase, both alphabets)/keyring encoding and must parse completely into documented fields; all four (ephemeral, ephemeral_public) option combinations; password mode; CLI for every ordered pair of three long-named parties via -o and via stdout. distinct non-trivial = distinct files produced");
+    rep.rule_add("CLI: stdin a regular file standing at offsets 0/1/70000/99999/100000; 8 FILE/-o name pairs that are each other's temporary-file spellings; special X25519 points as recipient in the library grid.");
     rep.rule_add("CLI: plaintext on stdin in 5 shapes x password source x output; 48-file ephemeral sequence; non-blocking stdout with 3 slow-reader profiles x 3 sizes x 2 modes.");
     rep.assume("identities from a seed-derived 4-key alphabet; names are >= 12 bytes so that a chance occurrence in ciphertext has probability < 2^-70");
     let ids = idents(seed);
@@ -225,6 +226,41 @@ pub fn run(rep: &'static Report) {
         }
         rep.eval(cmp);
         rep.extra("ephemeral_is_static_key_comparisons", json!(cmp));
+    }
+
+    // recipients that are special X25519 points (small order, non-canonical): the encryption is refused with nothing
+    // written, or its output obeys every clause (documented fields only, prescribed length, the sender's key nowhere)
+    {
+        let p = plaintext(seed ^ 0x8f, 13);
+        let sender_only: Vec<(&str, &[u8; 32])> = vec![(ids[0].name, &ids[0].pk)];
+        for (pname, u) in crate::c19::special_points() {
+            rep.eval(1);
+            rep.nontrivial(format!("special-recipient-{}", pname).as_bytes());
+            let rcpt = Ident { name: "special-point", sk: [0u8; 32], pk: u };
+            let case = json!({"kind":"opts","combo":"special-recipient","point":pname});
+            let mut out = Vec::new();
+            let mut src = SchedReader::new(&p, &[]);
+            let res = guarded(|| ke::key_encrypt(&mut src, &mut out, &ids[0].private(), &ids[0].public(), &rcpt.public(), Some(&privkey(&e)), Some(&pubkey(&e_pub)), Some(&PayloadKey::new(&pays[0])), AsymFileFormat::V1));
+            match res {
+                Err(m) => rep.violation("opts/encrypt-failed", case, format!("key_encrypt to the special point {} panicked: {}", pname, m)),
+                Ok(Err(_)) => {
+                    if !out.is_empty() {
+                        rep.violation("lib/refused-but-wrote", case, format!("key_encrypt to the special point {} was refused after {} bytes had been written", pname, out.len()));
+                    }
+                }
+                Ok(Ok(_)) => {
+                    no_identity(rep, "special-recipient", &out, &sender_only, &[], &case);
+                    match skeleton(&out, 132) {
+                        None => rep.violation("lib/does-not-parse-into-documented-fields", case.clone(), format!("output of {} bytes for the special recipient {} is not magic || handshake || chunk records", out.len(), pname)),
+                        Some((_, recs, len)) => {
+                            if len != 132 + 32 * recs.len() + p.len() {
+                                rep.violation("lib/length-formula", case.clone(), format!("length {} != 132 + 32*{} + {} for the special recipient {}", len, recs.len(), p.len(), pname));
+                            }
+                        }
+                    }
+                }
+            }
+        }
     }
 
     // the four (ephemeral, ephemeral_public) option combinations
@@ -544,6 +580,68 @@ fn cli_level(rep: &Report) {
             })
             .sum();
         rep.extra("cli_stdin_plaintext_runs", json!({"runs":sjobs.len(),"files_produced":produced}));
+    }
+    // stdin is a regular file whose descriptor already stands at an offset (the parent consumed a preamble:
+    // `{ read hdr; kestrel encrypt ...; } < file`): what is encrypted is what is left to read on that descriptor.
+    // And FILE / -o names that are each other's temporary-file spellings (x.tmp, x.part, x~, .x.swp next to x).
+    {
+        let mut ojobs: Vec<(&str, u64, &str, &str)> = vec![];
+        for mode in ["key", "pass"] {
+            for off in [0u64, 1, 70_000, 99_999, 100_000] {
+                ojobs.push((mode, off, "", ""));
+            }
+            for (inn, outn) in [("report.tmp", "report"), ("report", "report.tmp"), ("report.part", "report"), ("report~", "report"), (".report.swp", "report"), ("report.new", "report"), ("report", "report.ktl"), ("report.ktl.tmp", "report.ktl")] {
+                ojobs.push((mode, u64::MAX, inn, outn));
+            }
+        }
+        ojobs.par_iter().for_each(|&(mode, off, inn, outn)| {
+            rep.eval(1);
+            rep.nontrivial(format!("cli-stdin-offset-{}-{}-{}-{}", mode, off, inn, outn).as_bytes());
+            let pw = if mode == "key" { parties[0].password.clone() } else { "pw-for-file".to_string() };
+            let whole = plaintext(seed ^ 0x86, 100_000);
+            let sc = Scratch::new();
+            sc.write("kr.txt", kr.as_bytes());
+            let mut args: Vec<&str> = if mode == "key" { vec!["encrypt", "-t", &parties[1].name, "-f", &parties[0].name, "-k", "kr.txt", "--env-pass"] } else { vec!["password", "encrypt", "--env-pass"] };
+            let (expected, outname, what): (Vec<u8>, &str, String) = if off == u64::MAX {
+                sc.write(inn, &whole);
+                args.insert(if mode == "key" { 1 } else { 2 }, inn);
+                args.extend_from_slice(&["-o", outn]);
+                (whole.clone(), outn, format!("kestrel {} (input '{}', output '{}')", args.join(" "), inn, outn))
+            } else {
+                sc.write("data.bin", &whole);
+                args.extend_from_slice(&["-o", "out.ktl"]);
+                (whole[off as usize..].to_vec(), "out.ktl", format!("kestrel {} with stdin a regular file of 100000 bytes standing at offset {}", args.join(" "), off))
+            };
+            let mut cmd = Cmd::new(&args).env("KESTREL_PASSWORD", &pw);
+            if off != u64::MAX {
+                cmd.stdin_path = Some("data.bin".into());
+                cmd.stdin_offset = Some(off);
+            }
+            let out = proc::run(&cmd, &sc.0);
+            let case = json!({"kind":"cli-stdin","mode":mode,"offset":off,"input":inn,"output":outn});
+            if let Err(e) = out.well_behaved() {
+                rep.violation("cli-stdin/ill-behaved", case, format!("{}: {}", what, e));
+                return;
+            }
+            if !out.ok() {
+                rep.violation("cli-stdin/encrypt", case, format!("{}: failed: {}", what, out.summary()));
+                return;
+            }
+            let file = sc.read(outname).unwrap_or_default();
+            let (hdr, good) = if mode == "key" {
+                (132, matches!(r::read_key_file(&parties[1].sk, &file), Ok(k) if k.parsed.plaintext == expected && k.sender == parties[0].pk))
+            } else {
+                (36, file.len() >= 36 && matches!(r::read_pass_file_with_key(&r::pass_key(pw.as_bytes(), file[4..36].try_into().unwrap()), &file), Ok(k) if k.plaintext == expected))
+            };
+            let want = hdr + 32 * ((expected.len() + CS - 1) / CS).max(1) + expected.len();
+            if !good || file.len() != want {
+                rep.violation("cli-stdin/output-is-not-the-encryption-of-the-input", case.clone(), format!("{}: exit 0 with a {}-byte file; the conforming encryption of the {} input bytes has {} bytes{}", what, file.len(), expected.len(), want, if good { "" } else { " (and REF does not recover the input from it)" }));
+            }
+            if off == u64::MAX && sc.read(inn).as_deref() != Some(&whole[..]) {
+                rep.violation("cli-stdin/input-file-changed", case, format!("{}: the input file was changed or removed by the run", what));
+            }
+        });
+        rep.extra("cli_stdin_offset_and_name_pair_runs", json!(ojobs.len()));
     }
     // stdout is a NON-BLOCKING pipe read slowly (as left behind by ssh or a task runner): the run may fail with an
     // error, but an exit status of 0 promises a conforming file of exactly the prescribed length on the pipe
